@@ -95,7 +95,14 @@ pub fn wellformed(seed: u64, idx: u64) -> Scenario {
     let n = rng.range(1, 4);
     for _ in 0..n {
         let id = sc.conns.len();
-        match rng.below(3) {
+        match rng.below(4) {
+            3 => {
+                // the application handler reports an error: that answer is a response too
+                let (class, bytes) = pal[rng.below(pal.len())].clone();
+                let mut c = Conn::simple(id, id as u32, bytes, class);
+                c.faults.handler_err = true;
+                sc.conns.push(c);
+            }
             0 => {
                 let (class, bytes) = pal[rng.below(pal.len())].clone();
                 sc.conns.push(Conn::simple(id, id as u32, bytes, class));
